@@ -1,4 +1,4 @@
-import Chewing.Proofs.C01Editor
+import Chewing.Proofs.C01Selecting
 /-!
 # C01 — no call sequence, key or configuration can crash or hang the engine
 
@@ -34,10 +34,14 @@ terminates, selector invariant established), auto-commit, dictionary flush; and 
 in every state: `start_selecting`, `cancel_selecting`, `commit`, `clear`, `ack`,
 `clear_syllable_editor`, `set_editor_options`, `set_syllable_editor`, `set_conversion_engine`,
 `learn_phrase`, `unlearn_phrase`; `select(n)` / `jump_*` outside a candidate list.
-**Not yet covered by a theorem** (`C01_target` is the statement without `Covered`): key events,
-`select(n)` and `jump_to_*_selection_point` **while a candidate list is open** (`Selecting::next`,
-`PhraseSelector::next` / `*_selection_point`, `SymbolSelector`); these are covered by the correspondence
-(model = code per step, including which steps panic) and the crash campaigns only.
+Under an open candidate list also every key whose arm of `Selecting::next` does not consult the
+candidates: all Ctrl / Shift combinations, Backspace, CapsLock, Up, Esc, Del and every key without a meaning
+there (`selHardKey ev = false`).
+**Not yet covered by a theorem** (`C01_target` is the statement without `Covered`): **while a candidate
+list is open**, the keys Down, Space, j, k, Left, Right, PageUp, PageDown and the digits (`selHardKey`:
+`PhraseSelector::next`, `Selecting::select`, `SymbolSelector`, paging), and the API calls `select(n)` and
+`jump_to_*_selection_point`; these are covered by the correspondence (model = code per step, including
+which steps panic) and the crash campaigns only.
 
 The conversion engines enter through `EnvOK.convert_ok`, which is C03's `nonempty_result` + `alt_chain` +
 `one_char_per_symbol` + `fuel_suffices` (proved there for the engine model under `CompValid`, a word per
@@ -49,7 +53,7 @@ open Chewing Chewing.C04 Chewing.C05 Chewing.C06
 variable {D L : Type} {env : Env D L} {G : D → Prop}
 
 /-- **C01, one operation (partial).**  `hv`: arguments the C layer validates; `hk`: not the known class
-    F02/F03; `hc`: not a key / `select` / `jump` under an open candidate list (not yet proved). -/
+    F02/F03; `hc`: not one of the list-reading keys / `select` / `jump` under an open candidate list (not yet proved). -/
 theorem C01_partial (hE : EnvOK env G) (e : Editor D L) (op : Op L) (hi : EditorInv env G e) (hv : OpValid op)
     (hk : ¬ Known env e op) (hc : Covered e op) :
     ∃ e', e.apply env op = .ok e' ∧ EditorInv env G e' :=
